@@ -143,7 +143,7 @@ static void m_msg(struct mspack_file *f, const char *fmt, ...) {
   calls[K_MSG]++;
   if (f) hcheck(f, "message");
   if (!fmt) sm_violation("message with NULL format");
-  if (sm_trace) printf("cb msg %s\n", f ? "handle" : "null");
+  if (sm_trace) { if (f) printf("cb msg #%d\n", ((struct hrec *) f)->id); else printf("cb msg null\n"); }
 }
 static void *m_alloc(struct mspack_system *s, size_t n) {
   void *p; (void) s;
